@@ -28,6 +28,7 @@ def run(db, chk) -> None:
     check_facade_stateless(db, chk, "C08.R-facade-stateless", ['critical_path_analysis'])
     from ..specs.endcoherence import check_time_dtype
     check_time_dtype(db, chk, "C08.R8-time-dtype")
+    _cg_scope(db, chk)
     from .c01 import _rounding
     _rounding(db, chk, rule="C08.R9-inward-rounding")        # fractional timestamps are rounded inward, so nesting / disjointness of events (the well-formedness the graph relies on) survives loading          # node times and edge weights are differences of ts / ts + dur of the loaded frame
     from ..specs.discipline import check_stateless
@@ -453,3 +454,18 @@ def _window(db, chk, m):
     okj = len(j) == 1 and j[0]["how"] == "left" and j[0]["right_key_terms"] == (T.col(TD, "index_correlation"),) and j[0]["left_key_terms"] == (("index", TD),)
     chk.ob(rule, "a device activity is matched with the host call whose index_correlation is the activity's id", okj, where, found=[(e["how"], T.show(e["left_key_terms"])[:60], T.show(e["right_key_terms"])[:60]) for e in j],
            accepted="gpu rows (indexed by event id) joined with host rows indexed by index_correlation")
+
+
+def _cg_scope(db, chk):
+    """the host call stacks walked by the graph builder are those of the analysed rank only"""
+    m = db.mod(CP)
+    f = m.func("CPGraph._construct_graph_from_call_stacks")
+    cs = [c for c in ast.walk(f) if isinstance(c, ast.Call) and H.name_id(c.func) == "CallGraph"]
+    if len(cs) != 1:
+        chk.ob("C08.R10-analysed-rank-only", "one CallGraph construction in _construct_graph_from_call_stacks", None, m.loc(f), found=len(cs))
+        return
+    b = H.bound_args(cs[0])
+    rk = b.get("ranks")
+    ok = rk is not None and (H.match("[self.rank]", rk) is not None)
+    chk.ob("C08.R10-analysed-rank-only", "the call graph is built for ranks=[self.rank] (the rank whose node maps the walk fills)", ok, m.loc(cs[0]), found={k: ast.unparse(v) for k, v in b.items()},
+           accepted="CallGraph(self.t, ranks=[self.rank])", why="without the restriction the stacks of every loaded rank are walked against this rank's event -> node maps: events of other ranks are looked up by id and edges join unrelated events")
